@@ -37,10 +37,11 @@ package keeper
 //@ iter 0 invariant [minimum_not_reached_yet] forall m in [0, $k + 1) :: bsum(addr, m) < minRequired
 
 // ---- reward split inside a reporter (C09, C04) ----
-// decmul/decquo are LegacyDec Mul/Quo on 18-decimal mantissas. reward and credits are mantissas.
+// decmul/decquo are LegacyDec Mul/Quo on 18-decimal mantissas. reward and credits are mantissas. The commission
+// rate is a percentage: 100000000000000000000 is the mantissa of 100.
 
 //@ define rec(q, r, h) = reporter.Report[pair(q, pair(r, h))]
-//@ define commission_of(reward, r) = decmul(reward, reporter.Reporters[bytes(r)].CommissionRate)
+//@ define commission_of(reward, r) = decquo(decmul(reward, reporter.Reporters[bytes(r)].CommissionRate), 100000000000000000000)
 //@ define share_of(reward, r, q, h, j) = decquo(decmul(reward - commission_of(reward, r), rec(q, r, h).TokenOrigins[j].Amount * 1000000000000000000), rec(q, r, h).Total * 1000000000000000000)
 //@ define own_shares(reward, r, q, h, n) = sum j in [0, n) :: (bytes(rec(q, r, h).TokenOrigins[j].DelegatorAddress) == bytes(r) ? share_of(reward, r, q, h, j) : 0)
 //@ define has_own_origin(r, q, h, n) = exists j in [0, n) :: bytes(rec(q, r, h).TokenOrigins[j].DelegatorAddress) == bytes(r)
@@ -180,3 +181,14 @@ package keeper
 //@ ensures [escrow_receives_exactly_what_was_unbonded] err == nil && called(Unbond) ==> bank.bal[module("dispute")] == old(bank.bal[module("dispute")]) + ret(Unbond, 0)
 //@ ensures [nothing_moves_without_unbonding] err == nil && !called(Unbond) ==> bank.bal == old(bank.bal)
 //@ ensures [only_pools_and_escrow_touched] forall a addr :: a != module("dispute") && a != module("bonded_tokens_pool") && a != module("not_bonded_tokens_pool") ==> bank.bal[a] == old(bank.bal[a])
+
+// ---- commission bounds at reporter creation (C09) ----
+//@ func (k msgServer).CreateReporter(goCtx, msg) (resp, err)
+//@ requires [msg_present] msg != nil
+//@ requires [reporter_address_checked_by_ValidateBasic] bech32ok(msg.ReporterAddress)
+//@ modifies reporter.Reporters, reporter.Selectors
+//@ ensures [commission_is_a_percentage_between_0_and_100] err == nil ==> 0 <= msg.CommissionRate && msg.CommissionRate <= 100000000000000000000
+//@ ensures [reporter_stored_with_its_terms] err == nil ==> has(reporter.Reporters, accbytes(msg.ReporterAddress)) && reporter.Reporters[accbytes(msg.ReporterAddress)].CommissionRate == msg.CommissionRate && reporter.Reporters[accbytes(msg.ReporterAddress)].MinTokensRequired == msg.MinTokensRequired && !reporter.Reporters[accbytes(msg.ReporterAddress)].Jailed
+//@ ensures [minimum_to_join_is_at_least_the_global_minimum] err == nil ==> msg.MinTokensRequired >= reporter.Params.MinTrb
+//@ ensures [an_existing_selector_or_reporter_is_rejected] old(has(reporter.Selectors, accbytes(msg.ReporterAddress))) ==> err != nil && nothing_written()
+//@ ensures [only_the_signers_records_are_written] forall a bytes :: a != accbytes(msg.ReporterAddress) ==> (has(reporter.Reporters, a) <==> old(has(reporter.Reporters, a))) && reporter.Reporters[a] == old(reporter.Reporters[a]) && (has(reporter.Selectors, a) <==> old(has(reporter.Selectors, a))) && reporter.Selectors[a] == old(reporter.Selectors[a])
